@@ -16,7 +16,8 @@
        the second reconstruct is a no-op, frameset_ok is an OR over the pieces, the two appends merge
        (TreeSplit.apply_append_text_twice).
    Hypotheses of the split theorem (the side condition of the list-level statement in TreeSplitRun.v):
-       mode = "in body", "in caption" or "in template" (the last two delegate to "in body"), foster parenting off, the adjusted current node is an HTML element (the token is not
+       mode = "in body", "in caption", "in template" or "in cell" (the last three delegate to "in body"; the shape
+       assumption of "in cell" - a td / th element is open - is carried through reconstruct), foster parenting off, the adjusted current node is an HTML element (the token is not
        handled by the foreign-content rules) and the current node is not a template element.
    ======================================================================== *)
 From Coq Require Import List NArith Bool Arith Lia String.
@@ -148,7 +149,7 @@ Lemma wp_recon_create_post s0 (Q : unit -> st -> Prop) :
   idx < length (active_formatting s) -> length (active_formatting s) - idx < fuel ->
   (forall j, idx <= j -> j < length (active_formatting s) ->
              exists h t, nth_error (active_formatting s) j = Some (FElem h t)) ->
-  (forall s', keeps s0 s' -> RPost s' -> Q tt s') ->
+  (forall s', keeps s0 s' -> RPost s' -> incl (open_elems s) (open_elems s') -> Q tt s') ->
   wp (recon_create fuel idx) Q s.
 Proof.
   induction fuel as [|f IH]; intros idx s K L Li Lf NM H; [lia|]. simpl.
@@ -166,7 +167,7 @@ Proof.
     simpl. repeat split; assumption. }
   rewrite E2 in K2 |- *.
   destruct (Nat.eqb idx (length (active_formatting s) - 1)) eqn:Eq.
-  - rewrite wp_ret. apply H; [exact K2|]. apply Nat.eqb_eq in Eq.
+  - rewrite wp_ret. apply H; [exact K2| |cbn [open_elems set_active_formatting]; rewrite E1; unfold vpush; apply incl_appl; apply incl_refl]. apply Nat.eqb_eq in Eq.
     destruct (TInv_stack_nonempty _ I L) as (a & rest & Eo & _).
     unfold RPost, lastopen. cbn [active_formatting open_elems set_active_formatting].
     split; [|split].
@@ -178,7 +179,9 @@ Proof.
       * change (fst (ename_of s1 new) = ns_html). rewrite En. reflexivity.
     + exists new. split; [rewrite E1; apply vlast_app|].
       apply (named_false_of_ename _ _ _ (ns_html, tg_name t)); [exact En | apply formatting_not_template; exact Ft].
-  - apply Nat.eqb_neq in Eq. apply IH; [exact K2 | | | | | exact H].
+  - apply Nat.eqb_neq in Eq. apply IH; [exact K2 | | | | |].
+    5:{ intros s' K' P' Inc. apply H; [exact K' | exact P'|]. eapply incl_tran; [|exact Inc].
+        cbn [open_elems set_active_formatting]. rewrite E1. unfold vpush. apply incl_appl. apply incl_refl. }
     + eapply late_keeps; [exact K2|]. destruct K as [_ S0]. unfold late in *. rewrite <- (st_mode _ _ S0). exact L.
     + cbn [active_formatting set_active_formatting]. rewrite vset_length; lia.
     + cbn [active_formatting set_active_formatting]. rewrite vset_length; lia.
@@ -192,14 +195,14 @@ Proof. intro H. exact H. Qed.
 Lemma wp_reconstruct_post s0 s (Q : unit -> st -> Prop) :
   keeps s0 s -> late s -> adjusted_ns s = ns_html ->
   (exists h, vlast (open_elems s) = Some h /\ named s h "template" = false) ->
-  (forall s', keeps s0 s' -> RPost s' -> Q tt s') ->
+  (forall s', keeps s0 s' -> RPost s' -> incl (open_elems s) (open_elems s') -> Q tt s') ->
   wp reconstruct_active_formatting_elements Q s.
 Proof.
   intros K L A Nt H. unfold reconstruct_active_formatting_elements. rewrite wp_bind, wp_get.
   destruct (vlast (active_formatting s)) as [last|] eqn:V.
-  2:{ rewrite wp_ret. apply H; [exact K|]. unfold RPost, lastopen. rewrite V. split; [exact I | split; assumption]. }
+  2:{ rewrite wp_ret. apply H; [exact K| |apply incl_refl]. unfold RPost, lastopen. rewrite V. split; [exact I | split; assumption]. }
   destruct (is_marker_or_open s last) eqn:M.
-  { apply wp_probe. apply H; [(apply keeps_set_out; [|reflexivity]); exact K|].
+  { apply wp_probe. apply H; [(apply keeps_set_out; [|reflexivity]); exact K| |apply incl_refl].
     apply RPost_set_out. unfold RPost, lastopen. rewrite V. split; [exact M | split; assumption]. }
   rewrite wp_bind. apply wp_probe. rewrite wp_bind, wp_unwrap.
   set (s1 := set_out _ s).
@@ -228,19 +231,36 @@ Qed.
 (* ---------- closed forms ---------- *)
 (* the modes whose character arm is the one of "in body" (in cell is left out: its shape assumption would have to be
    carried through reconstruct) *)
-Definition dmode (m : imode) : Prop := m = InBody \/ m = InCaption \/ m = InTemplate.
+Definition dmode (m : imode) : Prop := m = InBody \/ m = InCaption \/ m = InTemplate \/ m = InCell.
 
 Definition bodyhyp (s : st) : Prop :=
-  TInv s /\ dmode (mode s) /\ foster_parenting s = false /\ adjusted_ns s = ns_html /\
+  TInv s /\ dmode (mode s) /\ Hshape s /\ foster_parenting s = false /\ adjusted_ns s = ns_html /\
   exists h, vlast (open_elems s) = Some h /\ named s h "template" = false.
 
-Lemma hshape_in_body s : dmode (mode s) -> Hshape s.
+(* the shape assumption says nothing in three of the modes; in "in cell": a td or th element is open *)
+Lemma hshape_in_body s : mode s = InBody \/ mode s = InCaption \/ mode s = InTemplate -> Hshape s.
 Proof. intros [E|[E|E]]; unfold Hshape, hshape_b; rewrite E; reflexivity. Qed.
 Lemma dmode_late s : dmode (mode s) -> late s.
-Proof. intros [E|[E|E]]; unfold late; rewrite E; reflexivity. Qed.
+Proof. intros [E|[E|[E|E]]]; unfold late; rewrite E; reflexivity. Qed.
+Lemma hshape_in_cell s : mode s = InCell ->
+  hshape_b s = existsb (fun x => in_set td_th (ename_of s x)) (open_elems s).
+Proof.
+  intro E. unfold hshape_b. rewrite E. cbn [is_mode mode_eqb mode_id Nat.eqb orb andb].
+  rewrite andb_true_r. reflexivity.
+Qed.
+(* the shape assumption survives anything that keeps the mode, only adds open elements and keeps their names *)
+Lemma hshape_transfer q sr : dmode (mode q) -> mode sr = mode q -> Hshape q ->
+  incl (open_elems q) (open_elems sr) -> (forall x, In x (open_elems q) -> ename_of sr x = ename_of q x) -> Hshape sr.
+Proof.
+  intros [E|[E|[E|E]]] Em Sh Inc En; try (apply hshape_in_body; rewrite Em; tauto).
+  unfold Hshape in *. rewrite hshape_in_cell in * by congruence.
+  apply existsb_exists in Sh. destruct Sh as (x & Hx & Tx). apply existsb_exists. exists x.
+  split; [apply Inc; exact Hx | rewrite (En x Hx); exact Tx].
+Qed.
 
 Definition pre_arm (m : imode) : list event :=
   match m with
+  | InCell => [EvArm (mode_id InCell) 4]
   | InCaption => [EvArm (mode_id InCaption) 2]
   | InTemplate => [EvArm (mode_id InTemplate) 0]
   | _ => []
@@ -265,6 +285,8 @@ Proof. rewrite (first_match_chars_ext _ sp x []). destruct sp; reflexivity. Qed.
 
 Lemma first_match_caption_chars sp x : first_match heads_in_caption (KChars sp x) = 2.
 Proof. rewrite (first_match_chars_ext _ sp x []). destruct sp; reflexivity. Qed.
+Lemma first_match_cell_chars sp x : first_match heads_in_cell (KChars sp x) = 4.
+Proof. rewrite (first_match_chars_ext _ sp x []). destruct sp; reflexivity. Qed.
 Lemma first_match_template_chars sp x : first_match heads_in_template (KChars sp x) = 0.
 Proof. rewrite (first_match_chars_ext _ sp x []). destruct sp; reflexivity. Qed.
 
@@ -279,20 +301,20 @@ Proof.
 Qed.
 
 Lemma ptc_body s x sr target :
-  TInv s -> dmode (mode s) -> adjusted_ns s = ns_html ->
+  TInv s -> dmode (mode s) -> Hshape s -> adjusted_ns s = ns_html ->
   reconstruct_active_formatting_elements (arm_state s) = Ok tt sr ->
   foster_parenting sr = false -> vlast (open_elems sr) = Some target -> named sr target "template" = false ->
   process_to_completion (KChars NotSplit x) s = Ok SContinue (body_fin x sr target).
 Proof.
-  intros I Dm A R Fp V Nt. assert (L : late s) by (apply dmode_late; exact Dm).
+  intros I Dm Sh A R Fp V Nt. assert (L : late s) by (apply dmode_late; exact Dm).
   unfold process_to_completion. unfold bind at 1. unfold get.
   unfold ptc_fuel. change (64 + 4 * length (tk_text (KChars NotSplit x)) + 4 * length (open_elems s) + 4 * length (template_modes s))
     with (S (63 + 4 * length (tk_text (KChars NotSplit x)) + 4 * length (open_elems s) + 4 * length (template_modes s))).
   cbn [ptc_loop]. unfold ptc_iter. cbv zeta.
-  unfold bind at 1. unfold bind at 1. rewrite (shape_check_ok s (hshape_in_body s Dm)).
+  unfold bind at 1. unfold bind at 1. rewrite (shape_check_ok s Sh).
   unfold bind at 1. rewrite (is_foreign_chars_html s NotSplit x I L A).
   unfold bind at 1. unfold bind at 1. unfold get. unfold arm_state in R.
-  destruct Dm as [Em|[Em|Em]]; rewrite Em in R |- *; cbn [step].
+  destruct Dm as [Em|[Em|[Em|Em]]]; rewrite Em in R |- *; cbn [step].
   - rewrite (step_in_body_chars s x sr target R Fp V Nt). reflexivity.
   - unfold step_in_caption, arm_dispatch. cbv zeta. rewrite first_match_caption_chars.
     unfold bind at 1. unfold log_arm, modify. cbn [nth bodies_in_caption].
@@ -300,6 +322,9 @@ Proof.
   - unfold step_in_template, step_in_template_gen, arm_dispatch. cbv zeta. rewrite first_match_template_chars.
     unfold bind at 1. unfold log_arm, modify. cbn [nth bodies_in_template_gen].
     rewrite (step_in_body_chars (set_out (EvArm (mode_id InTemplate) 0 :: out s) s) x sr target R Fp V Nt). reflexivity.
+  - unfold step_in_cell, arm_dispatch. cbv zeta. rewrite first_match_cell_chars.
+    unfold bind at 1. unfold log_arm, modify. cbn [nth bodies_in_cell].
+    rewrite (step_in_body_chars (set_out (EvArm (mode_id InCell) 4 :: out s) s) x sr target R Fp V Nt). reflexivity.
 Qed.
 
 Lemma sig_arm m evs : sig (EvArm (mode_id InBody) 1 :: pre_arm m ++ evs) = sig evs.
@@ -309,23 +334,27 @@ Proof. destruct m; reflexivity. Qed.
 Lemma body_closed q : bodyhyp q ->
   exists sr target,
     reconstruct_active_formatting_elements (arm_state q) = Ok tt sr /\
-    TInv sr /\ mode sr = mode q /\ RPost sr /\ foster_parenting sr = false /\ ignore_lf sr = ignore_lf q /\
+    TInv sr /\ mode sr = mode q /\ Hshape sr /\ RPost sr /\ foster_parenting sr = false /\ ignore_lf sr = ignore_lf q /\
     vlast (open_elems sr) = Some target /\ named sr target "template" = false /\
     forall x, process_to_completion (KChars NotSplit x) q = Ok SContinue (body_fin x sr target).
 Proof.
-  intros (I & Em & Fp & A & Nt).
+  intros (I & Em & Sh & Fp & A & Nt).
   assert (L : late (arm_state q)) by (exact (dmode_late q Em)).
   assert (K : keeps (arm_state q) (arm_state q)).
   { apply keeps_refl. eapply TInv_core_eq; [apply core_eq_set_out; apply sig_arm | exact I]. }
-  pose proof (wp_reconstruct_post (arm_state q) (arm_state q) (fun _ s' => keeps (arm_state q) s' /\ RPost s') K L A Nt
-                (fun s' K' P' => conj K' P')) as W.
+  pose proof (wp_reconstruct_post (arm_state q) (arm_state q)
+                (fun _ s' => keeps (arm_state q) s' /\ RPost s' /\ incl (open_elems q) (open_elems s')) K L A Nt
+                (fun s' K' P' Inc => conj K' (conj P' Inc))) as W.
   pose proof (Flg_reconstruct (arm_state q)) as Fl.
   unfold wp in W. destruct (reconstruct_active_formatting_elements (arm_state q)) as [[] sr | n |] eqn:R; [|destruct W | destruct W].
-  destruct W as ([Ir Sr] & P). destruct Fl as [F1 F2].
+  destruct W as ([Ir Sr] & P & Inc). destruct Fl as [F1 F2].
+  assert (Shr : Hshape sr).
+  { apply (hshape_transfer q sr Em (st_mode _ _ Sr) Sh Inc). intros x Hx.
+    apply (stable_ename (arm_state q) sr x Sr). apply (TInv_stack_known q x I Hx). }
   pose proof P as (_ & _ & target & V & Ntr).
   assert (Fr : foster_parenting sr = false) by (rewrite F1; exact Fp).
   exists sr, target. split; [reflexivity|]. split; [exact Ir|]. split; [exact (st_mode _ _ Sr)|].
-  split; [exact P|]. split; [exact Fr|]. split; [rewrite F2; reflexivity|]. split; [exact V|]. split; [exact Ntr|].
+  split; [exact Shr|]. split; [exact P|]. split; [exact Fr|]. split; [rewrite F2; reflexivity|]. split; [exact V|]. split; [exact Ntr|].
   intro x. apply ptc_body; assumption.
 Qed.
 
@@ -361,10 +390,10 @@ Qed.
 
 Lemma bodyhyp_prelude s line x : bodyhyp s -> bodyhyp (prelude_state s line x) /\ ignore_lf (prelude_state s line x) = false.
 Proof.
-  intros (I & Em & Fp & A & Nt).
-  destruct (prelude_state_ok s line x I (hshape_in_body s Em)) as [I' _].
-  revert I'. apply prelude_state_cases. intros evs I'. split; [|reflexivity].
-  split; [exact I'|]. split; [exact Em|]. split; [exact Fp|]. split; [exact A | exact Nt].
+  intros (I & Em & Sh & Fp & A & Nt).
+  destruct (prelude_state_ok s line x I Sh) as [I' Sh'].
+  revert I' Sh'. apply prelude_state_cases. intros evs I' Sh'. split; [|reflexivity].
+  split; [exact I'|]. split; [exact Em|]. split; [exact Sh'|]. split; [exact Fp|]. split; [exact A | exact Nt].
 Qed.
 
 Lemma same_core_prelude s line x : same_core (prelude_state s line x) (set_ignore_lf false s).
@@ -429,6 +458,15 @@ Proof.
   destruct p as [o m om tm ptt qm oe af he fe ce fo il fp v ou]. cbn [ignore_lf] in Il. subst il. reflexivity.
 Qed.
 
+Lemma hshape_b_set_frameset_ok v s : hshape_b (set_frameset_ok v s) = hshape_b s.
+Proof.
+  unfold hshape_b, in_scope.
+  change (mode (set_frameset_ok v s)) with (mode s). change (open_elems (set_frameset_ok v s)) with (open_elems s).
+  change (dev_on (set_frameset_ok v s) 11) with (dev_on s 11). change (ename_of (set_frameset_ok v s)) with (ename_of s).
+  change (scope_for (set_frameset_ok v s)) with (scope_for s).
+  rewrite (in_scope_l_ext s (set_frameset_ok v s)); [reflexivity | intro h; reflexivity].
+Qed.
+
 Lemma recon_noop_cases q (P : st -> Prop) : (forall evs, P (set_out (evs ++ out q) q)) -> P (recon_noop_state (arm_state q)).
 Proof.
   intro H. unfold recon_noop_state, arm_state, arm_state_m. destruct (vlast _).
@@ -453,7 +491,7 @@ Theorem body_mode_split s line line' a b :
 Proof.
   intros Hs Na Nb. pose proof Hs as (I & _).
   destruct (bodyhyp_prelude s line a Hs) as [Hp Ilp]. set (p := prelude_state s line a) in *.
-  destruct (body_closed p Hp) as (sr & target & R & Ir & Emr & P & Fr & Ilr & V & Nt & G).
+  destruct (body_closed p Hp) as (sr & target & R & Ir & Emr & Shr & P & Fr & Ilr & V & Nt & G).
   rewrite Ilp in Ilr.
   assert (Core : exists s1 sa s2,
     process_token (TChars (a ++ b)) line s = Ok SContinue s1 /\
@@ -471,7 +509,7 @@ Proof.
     cbn [app]. exists (body_fin (cb :: rb) sr target), p.
     rewrite process_token_chars, Ilp, strip_lf_false.
     destruct (bodyhyp_prelude p line' (cb :: rb) Hp) as [Hp2 _]. set (p2 := prelude_state p line' (cb :: rb)) in *.
-    destruct (body_closed p2 Hp2) as (sr2 & target2 & R2 & _ & _ & _ & _ & _ & V2 & _ & G2).
+    destruct (body_closed p2 Hp2) as (sr2 & target2 & R2 & _ & _ & _ & _ & _ & _ & V2 & _ & G2).
     assert (Cp : same_core (arm_state p) (arm_state p2)).
     { unfold p2. apply same_core_arm_prelude. exact Ilp. }
     pose proof (Frame_two_states _ Frame_reconstruct _ _ Cp) as Fr2. rewrite R, R2 in Fr2.
@@ -494,14 +532,16 @@ Proof.
     assert (Dmr : dmode (mode sr)) by (rewrite Emr; destruct Hp as (_ & Dp & _); exact Dp).
     assert (Hsa : bodyhyp sa).
     { destruct P as (_ & Ar & _). unfold sa, body_fin in *.
-      destruct (any_not_whitespace a'); (split; [exact Isa|]); (split; [exact Dmr|]); (split; [exact Fr|]);
+      destruct (any_not_whitespace a'); (split; [exact Isa|]); (split; [exact Dmr|]);
+        (split; [first [apply Hshape_set_out; unfold Hshape; rewrite hshape_b_set_frameset_ok; exact Shr | apply Hshape_set_out; exact Shr]|]);
+        (split; [exact Fr|]);
         (split; [exact Ar|]); exists target; split; assumption. }
     assert (Ilsa : ignore_lf sa = false) by (unfold sa, body_fin; destruct (any_not_whitespace a'); exact Ilr).
-    destruct (bodyhyp_prelude sa line' b Hsa) as [(Ip2 & Em2 & _ & A2 & _) _]. set (p2 := prelude_state sa line' b) in *.
+    destruct (bodyhyp_prelude sa line' b Hsa) as [(Ip2 & Em2 & Sh2 & _ & A2 & _) _]. set (p2 := prelude_state sa line' b) in *.
     split.
     { rewrite process_token_chars, Ilsa, strip_lf_false. unfold b at 1. fold b. fold p2.
       unfold second_state. fold sa. fold p2.
-      apply ptc_body; [exact Ip2 | exact Em2 | exact A2 | | | |].
+      apply ptc_body; [exact Ip2 | exact Em2 | exact Sh2 | exact A2 | | | |].
       - apply reconstruct_noop. destruct P as (Lo & _). unfold p2. apply (prelude_state_cases sa line' b). intro evs.
         unfold sa, body_fin. destruct (any_not_whitespace a'); exact Lo.
       - apply recon_noop_cases. intro evs0. unfold p2. apply (prelude_state_cases sa line' b). intro evs.
@@ -517,7 +557,7 @@ Qed.
 
 (* the same with the hypotheses spelled out *)
 Theorem body_mode_split_explicit s line line' a b target :
-  TInv s -> mode s = InBody \/ mode s = InCaption \/ mode s = InTemplate ->
+  TInv s -> mode s = InBody \/ mode s = InCaption \/ mode s = InTemplate \/ (mode s = InCell /\ Hshape s) ->
   foster_parenting s = false -> adjusted_ns s = ns_html ->
   vlast (open_elems s) = Some target -> is_template_node s target = false ->
   a <> [] -> b <> [] ->
@@ -528,5 +568,8 @@ Theorem body_mode_split_explicit s line line' a b target :
     same_core s1 s2 /\ dom_of s1 = dom_of s2 /\ TInv s1 /\ TInv s2.
 Proof.
   intros I Dm Fp A V Nt Na Nb. apply body_mode_split; [|exact Na | exact Nb].
-  split; [exact I|]. split; [exact Dm|]. split; [exact Fp|]. split; [exact A|]. exists target. split; [exact V | exact Nt].
+  assert (Sh : Hshape s).
+  { destruct Dm as [E|[E|[E|[_ Sh]]]]; [apply hshape_in_body; tauto | apply hshape_in_body; tauto | apply hshape_in_body; tauto | exact Sh]. }
+  assert (Dm' : dmode (mode s)) by (unfold dmode; tauto).
+  split; [exact I|]. split; [exact Dm'|]. split; [exact Sh|]. split; [exact Fp|]. split; [exact A|]. exists target. split; [exact V | exact Nt].
 Qed.
